@@ -26,7 +26,7 @@ F = Fraction
 INDICES = {'0': 0, '1': 1, '2': 2, '3': 3, '4': 4, '5': 5, '-1': -1, '-2': -2, '-3': -3, '-4': -4, '-5': -5, '-6': -6,
            '1.5': F(3, 2), '-1.5': F(-3, 2), '-0.5': F(-1, 2), '0.9': F(9, 10), '3.9': F(39, 10), '-3.5': F(-7, 2),
            'True': True, 'False': False, 'hi': 2, 'hn': -1, '1.0': 1, '-2.0': -2}
-VALUES = {'0': 0, '1': 1}
+VALUES = {'0': 0, '1': 1, 'None': None}
 SLICES = [(a, b) for a in (None, '0', '1', '-1', '1.5', '-2') for b in (None, '0', '2', '-1', '-1.5', '5')]
 KEYS = {'"a"': 'a', '"1"': '1', '1': ('num', '1'), '1.0': ('num', '1.0'), 'True': True, 'None': None,
         'hk': 1, 'hs': 'a', '"True"': 'True', '"None"': 'None', '"1.0"': '1.0'}
@@ -145,7 +145,7 @@ def apply_model(kind, state, op):
         elif o == 'insert':
             r = m.insert(INDICES[op[1]], VALUES[op[2]])
         elif o == 'remove':
-            r = m.remove(int(op[1]))
+            r = m.remove(_val(op[1]))
         elif o == 'read':
             r = m.read(INDICES[op[1]])
         elif o == 'write':
@@ -155,11 +155,11 @@ def apply_model(kind, state, op):
         elif o == 'del':
             r = m.delete(INDICES[op[1]])
         elif o == 'index_of':
-            r = m.index_of(int(op[1]))
+            r = m.index_of(_val(op[1]))
         elif o == 'len':
             r = m.length()
         elif o == 'in':
-            r = m.contains(int(op[1]))
+            r = m.contains(_val(op[1]))
         elif o == 'slice':
             r = m.slice(_ix(op[1]), _ix(op[2]))
         elif o == 'slice3':
@@ -210,6 +210,10 @@ def apply_model(kind, state, op):
     return r, m.snapshot()
 
 
+def _val(t):
+    return VALUES[t] if t in VALUES else int(t)
+
+
 def _ix(t):
     if t is None:
         return None
@@ -254,16 +258,18 @@ def get_parser():
 
 def real_container(kind, state, flavour):
     api = snapshot.api()
-    mk = (lambda x: api.Decimal(x)) if flavour == 'dec' else (lambda x: x)
+    mk = (lambda x: None if x is None else api.Decimal(x)) if flavour == 'dec' else (lambda x: x)
     if kind == 'list':
         return [mk(x) for x in state]
     return {k: mk(v) for k, v in state}
 
 
 def in_domain(kind, st, b):
+    def okv(x):
+        return x is None or 0 <= x <= 2
     if kind == 'list':
-        return len(st) <= b['MAXLEN'] and all(0 <= x <= 2 for x in st)
-    return len(st) <= b['MAXD'] and all(0 <= v <= 2 for _, v in st)
+        return len(st) <= b['MAXLEN'] and all(okv(x) for x in st) and sum(x is None for x in st) <= 1
+    return len(st) <= b['MAXD'] and all(okv(v) for _, v in st) and sum(v is None for _, v in st) <= 1
 
 
 def step(res, kind, state, op, b):
@@ -342,7 +348,7 @@ def main(tier, seed, t0):
     snapshot.api()
     total = runner.Result()
     seen = {('list', ()), ('dict', ())}
-    frontier = sorted(seen)
+    frontier = sorted(seen, key=repr)
     depth = 0
     fix = False
     sample_done = False
@@ -355,7 +361,7 @@ def main(tier, seed, t0):
             tasks += [(kind, sts[i:i + n], b) for i in range(0, len(sts), n)]
         tasks = runner.rotate(tasks, seed)
         r = runner.run_tasks(work, tasks, selftest=(depth <= 2))
-        new = sorted(x for x in r.bag if x not in seen)
+        new = sorted((x for x in r.bag if x not in seen), key=repr)
         r.bag = set()
         total.merge(r)
         seen.update(new)
